@@ -28,6 +28,9 @@ CONSTANTS
   AllowGen, AllowStar,                \* generalized statements / quoted triples
   Faults,                             \* set of fault classes that may be injected (C16); {} = none
   FaultAt,                            \* the violation is injected at the first opportunity after that many rows
+  KindsOverride,                      \* <<>> or a function slot -> allowed term kinds (to keep exhaustive universes small)
+  Exhaustive,                         \* TRUE: no history, reader counters reset at every row: the reachable set is finite and every
+                                      \*       transition (reader state, row, reader state') is printed for the state-graph comparison
   HistLen                             \* stop and print after that many rows
 
 VARIABLES rd, cur, pc, hist, den, violated
@@ -45,15 +48,26 @@ Init ==
   /\ hist = <<>> /\ den = <<>>
   /\ violated = ""
 
-Room == Len(hist) < HistLen
+Room == Exhaustive \/ Len(hist) < HistLen
+
+(* projection of the reader state used for the state-graph comparison with the real Decoder *)
+Tab(t, ids) == [i \in ids |-> IF i \in DOMAIN t THEN <<t[i]>> ELSE <<>>]
+Key(r) == [names |-> Tab(r.names, IdsN), pfx |-> Tab(r.pfx, IdsP), dts |-> Tab(r.dts, IdsD),
+           lna |-> r.lna, lpa |-> r.lpa, lda |-> r.lda, lnu |-> r.lnu, lpu |-> r.lpu,
+           prev |-> r.prev, gopen |-> r.gopen, g |-> r.g]
 
 (* a row reaches the wire *)
 Emit(row) ==
   LET r2 == RdStep(rd, row) IN
   /\ r2.err = ""
-  /\ rd' = r2
-  /\ hist' = Append(hist, row)
-  /\ den' = IF r2.n > rd.n THEN Append(den, r2.item) ELSE den
+  /\ IF Exhaustive
+     THEN /\ rd' = [r2 EXCEPT !.n = 0, !.item = EmptyFn, !.aud = ZeroAud, !.lastg = <<>>]
+          /\ UNCHANGED <<hist, den>>
+          /\ PrintT("TR " \o ToJson([from |-> Key(rd), row |-> row, to |-> Key(r2),
+                                      item |-> IF r2.n > rd.n THEN <<r2.item>> ELSE <<>>]))
+     ELSE /\ rd' = r2
+          /\ hist' = Append(hist, row)
+          /\ den' = IF r2.n > rd.n THEN Append(den, r2.item) ELSE den
 
 Options ==
   /\ pc = "new" /\ Emit(OptRow) /\ pc' = "idle" /\ UNCHANGED <<cur, violated>>
@@ -96,6 +110,7 @@ BnForms  == {[t |-> "bn", v |-> b] : b \in Bnodes}
 Forms(k) == CASE k = "iri" -> IriForms [] k = "lit" -> LitForms [] k = "bn" -> BnForms [] k = "dg" -> {[t |-> "dg"]} [] OTHER -> {}
 
 Kinds(i) ==                  \* term kinds allowed in slot i
+  IF KindsOverride # <<>> THEN KindsOverride[i] ELSE
   CASE i = 1 -> {"iri", "bn"} \cup (IF AllowGen THEN {"lit"} ELSE {}) \cup (IF AllowStar THEN {"qt"} ELSE {})
     [] i = 2 -> {"iri"} \cup (IF AllowGen THEN {"bn", "lit"} ELSE {})
     [] i = 3 -> {"iri", "bn", "lit"} \cup (IF AllowStar THEN {"qt"} ELSE {})
@@ -231,6 +246,13 @@ BadStart(class) ==
         /\ hist' = <<row>>
   /\ violated' = class /\ pc' = "done"
   /\ UNCHANGED <<rd, cur, den>>
+
+AllFaultRows == UNION {FaultRows(c) : c \in Faults}
+PrintFaults ==              \* exhaustive mode: every catalogued illegal next row of every reachable reader state
+  (Exhaustive /\ pc = "idle" /\ Faults # {}) =>
+     \A c \in Faults : \A row \in FaultRows(c) :
+        (RdStep(rd, row).err # "" =>
+           PrintT("FR " \o ToJson([from |-> Key(rd), row |-> row, class |-> c, clause |-> RdStep(rd, row).err])))
 
 Next ==
   \/ Options \/ RepeatOptions \/ Cut
